@@ -256,4 +256,168 @@ theorem spec_literal_addquoted (s : Bytes) : QuoteSpec.literal (addquoted s) = s
 
 end
 
+/-! ### line ends (position independence of literals: the line of the token after a literal) -/
+
+section LineEnds
+open GLua.QuoteSpec
+
+theorem lineEndsAux_cons_plain (b : Nat) (hb : isNl b = false) (s : Bytes) (acc : Nat) :
+    lineEndsAux (b :: s) acc = lineEndsAux s acc := by
+  cases s with
+  | nil => simp [lineEndsAux, hb]
+  | cons d r => simp [lineEndsAux, hb]
+
+theorem lineEndsAux_acc_le (n : Nat) : ∀ (s : Bytes), s.length ≤ n → ∀ acc, lineEndsAux s acc = acc + lineEndsAux s 0 := by
+  induction n with
+  | zero => intro s hs acc; cases s with
+    | nil => simp [lineEndsAux]
+    | cons _ _ => simp at hs
+  | succ n ih =>
+    intro s hs acc
+    match s, hs with
+    | [], _ => simp [lineEndsAux]
+    | [c], _ => simp [lineEndsAux]; split <;> simp
+    | c :: d :: r, hs =>
+      have hr : r.length ≤ n := by simp at hs; omega
+      have hdr : (d :: r).length ≤ n := by simp at hs ⊢; omega
+      simp only [lineEndsAux]
+      split
+      · split
+        · rw [ih r hr (acc + 1), ih r hr (0 + 1)]; omega
+        · rw [ih _ hdr (acc + 1), ih _ hdr (0 + 1)]; omega
+      · exact ih _ hdr acc
+
+theorem lineEndsAux_acc (s : Bytes) (acc : Nat) : lineEndsAux s acc = acc + lineEndsAux s 0 :=
+  lineEndsAux_acc_le s.length s (Nat.le_refl _) acc
+
+/-- a byte that is no line end separates the text before it from the text after it -/
+theorem lineEnds_sep_le (b : Nat) (hb : isNl b = false) (t : Bytes) (n : Nat) :
+    ∀ (s : Bytes), s.length ≤ n → lineEnds (s ++ b :: t) = lineEnds s + lineEnds t := by
+  induction n with
+  | zero => intro s hs; cases s with
+    | nil => simp [lineEnds, lineEndsAux_cons_plain b hb, lineEndsAux]
+    | cons _ _ => simp at hs
+  | succ n ih =>
+    intro s hs
+    match s, hs with
+    | [], _ => simp [lineEnds, lineEndsAux_cons_plain b hb, lineEndsAux]
+    | [c], _ =>
+      simp only [lineEnds, List.cons_append, List.nil_append, lineEndsAux, hb]
+      by_cases hc : isNl c = true
+      · simp [hc, lineEndsAux_cons_plain b hb]; exact lineEndsAux_acc t 1
+      · simp [hc, lineEndsAux_cons_plain b hb]
+    | c :: d :: r, hs =>
+      have hr : r.length ≤ n := by simp at hs; omega
+      have hdr : (d :: r).length ≤ n := by simp at hs ⊢; omega
+      have ihr := ih r hr
+      have ihdr := ih _ hdr
+      simp only [lineEnds] at ihr ihdr ⊢
+      simp only [List.cons_append, lineEndsAux]
+      split
+      · split
+        · rw [lineEndsAux_acc, ihr, lineEndsAux_acc r (0+1)]; omega
+        · rw [lineEndsAux_acc, ← List.cons_append, ihdr, lineEndsAux_acc (d :: r) (0+1)]; omega
+      · rw [← List.cons_append, ihdr]
+
+theorem lineEnds_sep (b : Nat) (hb : isNl b = false) (s t : Bytes) :
+    lineEnds (s ++ b :: t) = lineEnds s + lineEnds t := lineEnds_sep_le b hb t s.length s (Nat.le_refl _)
+
+theorem lineEnds_plain_run (bs : Bytes) (hbs : ∀ b ∈ bs, isNl b = false) (t : Bytes) : lineEnds (bs ++ t) = lineEnds t := by
+  induction bs with
+  | nil => rfl
+  | cons b r ih =>
+    have := lineEnds_sep b (hbs b (by simp)) [] (r ++ t)
+    simp [lineEnds, lineEndsAux] at this ⊢
+    rw [lineEndsAux_cons_plain b (hbs b (by simp))]
+    exact ih (fun x hx => hbs x (by simp [hx]))
+
+theorem lineEnds_nil : lineEnds [] = 0 := rfl
+
+theorem lineEnds_plain (c : Nat) (hc : isNl c = false) (r : Bytes) : lineEnds (c :: r) = lineEnds r :=
+  lineEndsAux_cons_plain c hc r 0
+
+theorem lineEnds_pair (c d : Nat) (hc : isNl c = true) (hd : isNl d = true) (hne : d ≠ c) (r : Bytes) :
+    lineEnds (c :: d :: r) = 1 + lineEnds r := by
+  simp only [lineEnds, lineEndsAux, hc, hd]
+  simp [hne]
+  exact lineEndsAux_acc r 1
+
+theorem lineEnds_single (c : Nat) (hc : isNl c = true) (r : Bytes) (h : ∀ d t, r = d :: t → ¬(isNl d = true ∧ d ≠ c)) :
+    lineEnds (c :: r) = 1 + lineEnds r := by
+  cases r with
+  | nil => simp [lineEnds, lineEndsAux, hc]
+  | cons d t =>
+    have := h d t rfl
+    simp only [lineEnds, lineEndsAux, hc, this]
+    simp
+    exact lineEndsAux_acc (d :: t) 1
+
+theorem linesRead_eq (n : Nat) : ∀ (s : Bytes) (fuel : Nat), s.length ≤ n → s.length ≤ fuel → linesRead fuel s = lineEnds s := by
+  induction n with
+  | zero => intro s fuel hs _; cases s with
+    | nil => cases fuel <;> simp [linesRead, lineEnds, lineEndsAux]
+    | cons _ _ => simp at hs
+  | succ n ih =>
+    intro s fuel hs hf
+    match s, fuel, hs, hf with
+    | [], fuel, _, _ => cases fuel <;> simp [linesRead, lineEnds, lineEndsAux]
+    | c :: r, 0, _, hf => simp at hf
+    | c :: r, fuel + 1, hs, hf =>
+      have hr : r.length ≤ n := by simp at hs; omega
+      have hfr : r.length ≤ fuel := by simp at hf; omega
+      by_cases h10 : c = 10
+      · subst h10
+        match r, hr, hfr with
+        | 13 :: t, hr, hfr =>
+          have e : next (10 :: 13 :: t) = (10, t) := rfl
+          rw [linesRead, e, lineEnds_pair 10 13 (by decide) (by decide) (by decide)]
+          simp
+          exact ih t fuel (by simp at hr; omega) (by simp at hfr; omega)
+        | [], _, _ =>
+          have e : next [10] = (10, []) := rfl
+          rw [linesRead, e]; cases fuel <;> simp [linesRead, lineEnds, lineEndsAux, isNl]
+        | d :: t, hr, hfr =>
+          by_cases hd : d = 13
+          · subst hd
+            have e : next (10 :: 13 :: t) = (10, t) := rfl
+            rw [linesRead, e, lineEnds_pair 10 13 (by decide) (by decide) (by decide)]
+            simp
+            exact ih t fuel (by simp at hr; omega) (by simp at hfr; omega)
+          · have e : next (10 :: d :: t) = (10, d :: t) := by
+              unfold next; split <;> simp_all
+              rename_i h; omega
+            rw [linesRead, e, lineEnds_single 10 (by decide) (d :: t) (by
+              intro d' t' h; simp at h; obtain ⟨h1, _⟩ := h; subst h1
+              intro ⟨hn, _⟩; simp [isNl] at hn; omega)]
+            simp
+            exact ih (d :: t) fuel hr hfr
+      · by_cases h13 : c = 13
+        · subst h13
+          match r, hr, hfr with
+          | [], _, _ =>
+            have e : next [13] = (10, []) := rfl
+            rw [linesRead, e]; cases fuel <;> simp [linesRead, lineEnds, lineEndsAux, isNl]
+          | d :: t, hr, hfr =>
+            by_cases hd : d = 10
+            · subst hd
+              have e : next (13 :: 10 :: t) = (10, t) := rfl
+              rw [linesRead, e, lineEnds_pair 13 10 (by decide) (by decide) (by decide)]
+              simp
+              exact ih t fuel (by simp at hr; omega) (by simp at hfr; omega)
+            · have e : next (13 :: d :: t) = (10, d :: t) := by unfold next; split <;> simp_all
+              rw [linesRead, e, lineEnds_single 13 (by decide) (d :: t) (by
+                intro d' t' h; simp at h; obtain ⟨h1, _⟩ := h; subst h1
+                intro ⟨hn, _⟩; simp [isNl] at hn; omega)]
+              simp
+              exact ih (d :: t) fuel hr hfr
+        · have e : next (c :: r) = ((c : Int), r) := by unfold next; split <;> simp_all
+          have hc : isNl c = false := by simp [isNl, h10, h13]
+          rw [linesRead, e, lineEnds_plain c hc]
+          have : ¬ ((c : Int) = 10) := by omega
+          simp [this]
+          exact ih r fuel hr hfr
+
+
+end LineEnds
+
 end GLua.Proofs.C16Quote
